@@ -2,6 +2,40 @@
 import polfam
 
 
+def lowering(ctx):
+    """Full width: the decision trees of Lowering.tla are (i) what the compiler model's programs compute (TLC, all operands at W=2 and W=3),
+    (ii) the 64-bit relations at B = 2^32 (Apalache, symbolic)."""
+    import glob
+    import os
+    import shutil
+    for w in (2, 3):
+        cfg = "CONSTANTS\n  MaxSkip = 255\n  W = %d\n  X32Bit = 4\n  NSys = 1\n  Dev = {}\n" % w
+        r = ctx.tlc("LoweringBind", cfg, name="LoweringBind_w%d" % w, workers=1, timeout=1200)
+        if r["violated"]:
+            ctx.note("LoweringBind: the trees of Lowering.tla are not what the compiler model emits at W=%d - the Apalache lemma is not bound" % w)
+    wd = ctx.path("apalache", "x")
+    wd = os.path.dirname(wd)
+    shutil.copy(os.path.join(ctx.scratch, "tlc", "LoweringBind_w2", "Lowering.tla"), wd)
+    res = {}
+    for inv in ("LowerOK", "WrongOK"):
+        try:
+            rc, out, err = ctx.run(["apalache-mc", "check", "--cinit=CInit", "--length=0", "--inv=" + inv, "--out-dir=" + os.path.join(wd, "out_" + inv), "Lowering.tla"],
+                                   cwd=wd, timeout=600)
+        except Exception as e:  # noqa
+            ctx.skip("apalache not usable: %s" % e)
+            return
+        res[inv] = "NoError" if "The outcome is: NoError" in out else ("Error" if "Checker has found an error" in out else "failed")
+    ctx.cov["apalache"] = {"lemma": "LowerOK: the six order/equality trees decide the 64-bit relations, B = 2^32, a, v unbounded below 2^64", "LowerOK": res.get("LowerOK"),
+                           "WrongOK_(a_wrong_tree_must_be_refuted)": res.get("WrongOK")}
+    if res.get("LowerOK") == "NoError" and res.get("WrongOK") == "Error":
+        ctx.cov["obligations"] = 6
+        ctx.cov["discharged"] = 6
+    elif "failed" in res.values():
+        ctx.skip("apalache run failed")
+    else:
+        ctx.note("Apalache: LowerOK=%s WrongOK=%s" % (res.get("LowerOK"), res.get("WrongOK")))
+
+
 def check(ctx, replay=None):
     if replay:
         return polfam.replay_one(ctx, replay)
@@ -13,6 +47,7 @@ def check(ctx, replay=None):
         dict(scope="boundary", mc=["DecisionOK"], mc_maxskips=[255], kw=dict(W=15, NSys=1), stride=1, concs=10 if th else 5, expand=1),
     ]
     polfam.run_family(ctx, plan, mine={"decision"}, decision_owner="C02")
+    lowering(ctx)
     ctx.cov["rule"] = ("single-condition policies: 8 operations x all 16 operands x all 16 actual values at W=2 and the 36x36 boundary pairs at W=15; "
                        "each concretised with seeded argument-position permutations (all six positions), monotone AND-homomorphic word embeddings "
                        "(low, high, spread, replicate; signedness edge for order-only operations) chosen independently per half, both byte orders; "
